@@ -19,7 +19,8 @@ EXPLANATION = (
     "and are only rejected by llvm-as). Validity of every emitted instruction is decided by LLVM at run time: not decided."
     " ROUNDS 5-6: R9 a builtin that expands directly to a literal gives it the type the typer announced (line!: usize; file!: announced as slice, expanded to an array -- known finding)."
     " ROUND 7: R2 linkage and calling convention are tables over the sixteen flag sets, folded from the arguments of LLVMSetLinkage / LLVMSetFunctionCallConv (rules/flagfn.py), whatever the form of the code that chooses them."
-    " ROUND 8: R10-LINK-RESULT-CHECKED 'default diagnostic handler' (shared with C02): while the status of LLVMLinkModules2 is discarded (known finding) the default handler, which ends the process on a link error, must stay in place.")
+    " ROUND 8: R10-LINK-RESULT-CHECKED 'default diagnostic handler' (shared with C02): while the status of LLVMLinkModules2 is discarded (known finding) the default handler, which ends the process on a link error, must stay in place."
+    " ROUND 9: R11-BRANCH-TARGETS-FRESH: no LLVMBuildBr / LLVMBuildCondBr targets a block obtained from LLVMGetInsertBlock (it may be the entry block, which must not have predecessors); C01.R3-CAST-ALWAYS-CONVERTED is shared (an unconverted cast operand is a constant of the wrong type inside an aggregate, which only llvm-as notices); R2-LINKAGE-TABLE 'local functions reach the linked program': known finding (LLVMLinkModules2 drops unreferenced local symbols).")
 
 GEN = "alpha::generator::Generator"
 
@@ -64,7 +65,7 @@ def flags_in(node):
     return sorted(set(hirq.short(p).split("::")[-1] for p, _ in hirq.constructs(node) if "DeclarationFlag::" in hirq.short(p)))
 
 
-def r2_linkage(run, F):
+def r2_linkage(run, F, linked_program=True):
     """Linkage and calling convention of a function as *tables over its flags*, whatever the form of the code that chooses
     them (rules/flagfn.py folds the arguments of LLVMSetLinkage / LLVMSetFunctionCallConv over all sixteen assignments of
     Public, Main, Forward, External): External linkage iff Public or Main or Forward, Private otherwise; the C calling
@@ -92,6 +93,15 @@ def r2_linkage(run, F):
            "functions must get External linkage iff Public|Main|Forward and Private otherwise; wrong for the flag sets %s (e.g. %s)" % (
                bad[:6], {("/".join(sorted(k)) or "-"): v for k, v in lt.items() if ("/".join(sorted(k)) or "-") in bad[:2]}),
            sample={"wrong": bad})
+    # "the linked program defines each function the source defines": LLVMLinkModules2 links symbols with local linkage (private,
+    # internal) lazily, i.e. only when something already linked refers to them
+    local = sorted("/".join(sorted(k)) or "-" for k, v in lt.items() if str(v).endswith(("LLVMPrivateLinkage", "LLVMInternalLinkage", "LLVMLinkerPrivateLinkage")))
+    links = [p for p, bb in F.lib.bodies.items() if "hir" in bb and any((hirq.callee(c) or "").endswith("LLVMLinkModules2") for c in hirq.calls(bb["hir"]))]
+    if linked_program:
+      run.ob("R2-LINKAGE-TABLE", "local functions reach the linked program", not (local and links), F.where(d, sl[0]),
+           "functions without pub/main/forward get a local linkage (flag sets %s) and the program is linked with LLVMLinkModules2 (%s), which drops local "
+           "symbols nothing refers to: an unused private function is defined in its module's IR and absent from the linked program" % (
+               local[:4], [x.split("::")[-1] for x in links]))
     badc = sorted("/".join(sorted(k)) or "-" for k, v in ct.items()
                   if v != ("LLVMCallConv::LLVMCCallConv" if "External" in k else "LLVMCallConv::LLVMFastCallConv"))
     run.ob("R2-LINKAGE-TABLE", "calling convention", not badc, F.where(d, sc[0]),
